@@ -52,6 +52,7 @@ def fmtDeliv (d : Nat × Sig) : String :=
 
 def fmtErr : Err → String
   | .value => "err Value" | .key => "err Key" | .index => "err Index" | .attr => "err Attr" | .fuel => "err Fuel"
+  | .noneVal => "ok None"
 
 def fmtOut : Out → String
   | .err e => fmtErr e
